@@ -21,6 +21,15 @@ int c10_names(const char *name, const char *version)
 }
 int c10_init(void) { spifconf_init_subsystem(); return 1; }
 int c10_free(void) { spifconf_free_subsystem(); return 1; }
+/* application built-ins beyond the seven standard ones: the table grows at 10, 20, 40, ... entries */
+static spif_charptr_t c10_app_builtin(spif_charptr_t param) { (void) param; return (spif_charptr_t) STRDUP("<app>"); }
+int c10_regbi(int n)
+{
+    int i;
+    char name[32];
+    for (i = 0; i < n; i++) { snprintf(name, sizeof name, "vtb%d", i); spifconf_register_builtin(name, c10_app_builtin); }
+    return 1;
+}
 int c10_setenv(const char *k, const char *v, int unset) { return unset ? unsetenv(k) : setenv(k, v, 1); }
 
 static __attribute__((noinline)) void paint_stack(int pattern)
